@@ -11,6 +11,7 @@
     Array_Clear / List_Clear      destruct in a loop, free                            seqClear
     Array_Resize / List_Resize    Clear | destruct from the back | (List) Alloc+Link without assign   arrayResize / listResize
     Array_Assign / List_Assign    Clear, then Alloc+assign per element                seqAssignProbe
+    *_Assign                      `if (self is obj) return;` BEFORE the Clear (fix a3140e4)            step: assign c c is a no-op
     Array_Sort_Partition          swap only                                           partition
     Table_Set_Move                2 assign (swap space) … 2 destruct (replace branch) … memcpy moves   tableSet
     Table_Rem                     2 destruct, memset, memcpy shift                    mapRem
@@ -26,7 +27,7 @@ def modelledProfile : List (String × List String) := [
   ("Array_New", ["malloc", "throw", "Array_Alloc", "assign"]),
   ("Array_Del", ["destruct", "free"]),
   ("Array_Clear", ["destruct", "free"]),
-  ("Array_Assign", ["Array_Clear", "malloc", "throw", "Array_Alloc", "assign", "Array_Push"]),
+  ("Array_Assign", ["return_if_self_is_obj", "Array_Clear", "malloc", "throw", "Array_Alloc", "assign", "Array_Push"]),
   ("Array_Reserve_More", ["realloc", "throw"]),
   ("Array_Concat", ["Array_Reserve_More", "Array_Alloc", "assign"]),
   ("Array_Reserve_Less", ["realloc"]),
@@ -42,7 +43,7 @@ def modelledProfile : List (String × List String) := [
   ("List_New", ["List_Push"]),
   ("List_Clear", ["destruct", "List_Free"]),
   ("List_Del", ["List_Clear"]),
-  ("List_Assign", ["List_Clear", "List_Push"]),
+  ("List_Assign", ["return_if_self_is_obj", "List_Clear", "List_Push"]),
   ("List_Concat", ["List_Push"]),
   ("List_Pop_At", ["List_At", "List_Unlink", "destruct", "List_Free"]),
   ("List_Rem", ["List_Unlink", "destruct", "List_Free", "throw"]),
@@ -54,7 +55,7 @@ def modelledProfile : List (String × List String) := [
   ("Table_New", ["throw", "calloc", "calloc", "calloc", "throw", "Table_Set_Move"]),
   ("Table_Del", ["destruct", "destruct", "free", "free", "free"]),
   ("Table_Clear", ["destruct", "destruct", "free"]),
-  ("Table_Assign", ["Table_Clear", "calloc", "realloc", "realloc", "throw", "memset", "memset", "Table_Set_Move"]),
+  ("Table_Assign", ["return_if_self_is_obj", "Table_Clear", "calloc", "realloc", "realloc", "throw", "memset", "memset", "Table_Set_Move"]),
   ("Table_Set_Move", ["memset", "memset", "memcpy", "memcpy", "memcpy", "memcpy", "assign", "assign", "memcpy", "destruct", "destruct", "memcpy", "memcpy", "memcpy", "memcpy"]),
   ("Table_Rehash", ["calloc", "throw", "Table_Set_Move", "free"]),
   ("Table_Rem", ["throw", "throw", "destruct", "destruct", "memset", "memcpy", "memset", "Table_Resize_Less"]),
@@ -65,7 +66,7 @@ def modelledProfile : List (String × List String) := [
   ("Tree_Clear_Entry", ["Tree_Clear_Entry", "Tree_Clear_Entry", "destruct", "destruct", "free"]),
   ("Tree_Clear", ["Tree_Clear_Entry"]),
   ("Tree_Del", ["Tree_Clear"]),
-  ("Tree_Assign", ["Tree_Clear", "Tree_Set"]),
+  ("Tree_Assign", ["return_if_self_is_obj", "Tree_Clear", "Tree_Set"]),
   ("Tree_Set", ["Tree_Alloc", "assign", "assign", "Tree_Set_Fix", "assign", "assign", "Tree_Alloc", "assign", "assign", "Tree_Set_Fix", "Tree_Alloc", "assign", "assign", "Tree_Set_Fix"]),
   ("Tree_Rem", ["throw", "destruct", "destruct", "memcpy", "Tree_Rem_Fix", "Tree_Replace", "free"]),
   ("Tree_Resize", ["Tree_Clear", "throw"]),
